@@ -1,0 +1,20 @@
+//go:build !verif
+
+package simhook
+
+import "sync"
+
+// Enabled reports whether the hooks are compiled in.
+const Enabled = false
+
+// Yield marks a point where a simulator may switch to another goroutine.
+func Yield(point string) {}
+
+// BeforeLock is called immediately before mu.Lock().
+func BeforeLock(point string, mu *sync.RWMutex) {}
+
+// BeforeRLock is called immediately before mu.RLock().
+func BeforeRLock(point string, mu *sync.RWMutex) {}
+
+// BeforeMutex is called immediately before mu.Lock().
+func BeforeMutex(point string, mu *sync.Mutex) {}
